@@ -401,6 +401,10 @@ func C17(c *core.Ctx, replay string) {
 	}
 	c.Exhaustive = only == nil
 	if only == nil {
+		for _, l := range c17Stress(c) {
+			lines = append(lines, l)
+			meta = append(meta, l)
+		}
 		for _, l := range c17HTTP(c) {
 			lines = append(lines, l)
 			meta = append(meta, l)
@@ -428,9 +432,95 @@ func C17(c *core.Ctx, replay string) {
 			if strings.HasPrefix(meta[i].Scenario, "http") {
 				fp += "/http"
 			}
+			if strings.HasPrefix(meta[i].Scenario, "free-running") {
+				fp += "/concurrent-mutations"
+			}
 			c.Violation(fp, fmt.Sprintf("scenario %s (%s) schedule %v: history %s", meta[i].Scenario, meta[i].Config, meta[i].Sched, hb), meta[i])
 		}
 	}
+}
+
+// c17Stress: free-running concurrent admin mutations of ONE account through the real
+// cache + file store (no gates: the store's own read-modify-write is what is exercised).
+// Every field is its own register: three concurrent updates of different fields must
+// all be in the store afterwards; an update racing a delete may not leave the account
+// behind when both were acknowledged.
+func c17Stress(c *core.Ctx) []linLine {
+	var out []linLine
+	dir := filepath.Join(c.Scratch, "iam-stress")
+	os.MkdirAll(dir, 0o755)
+	defer os.RemoveAll(dir)
+	root := auth.Account{Access: "root", Secret: "rootsecret", Role: auth.RoleAdmin}
+	svc, err := auth.NewInternal(root, dir)
+	if err != nil {
+		c.Inconclusive("iam store: %v", err)
+		return nil
+	}
+	cache := auth.NewCache(svc, 120*time.Second, time.Hour)
+	defer cache.Shutdown()
+	// a populated store makes every rewrite slower, widening any window
+	for i := 0; i < c.Pick(300, 1200); i++ {
+		svc.CreateAccount(auth.Account{Access: fmt.Sprintf("filler-%05d", i), Secret: "x", Role: auth.RoleUser})
+	}
+	rd := func(id string, inv int64, v string) linOp {
+		return linOp{ID: id, Op: "get", Arg: "none", Res: "ok", Inv: inv, Ret: inv + 1, Body: v, Len: "none", Etag: "none", Meta: "none", Tags: "none", Full: true}
+	}
+	rounds := c.Pick(25, 250)
+	for r := 0; r < rounds; r++ {
+		acc := fmt.Sprintf("stress-%04d", r)
+		if err := cache.CreateAccount(auth.Account{Access: acc, Secret: "s1", Role: auth.RoleUser, UserID: 1, GroupID: 1}); err != nil {
+			c.Inconclusive("create: %v", err)
+			return out
+		}
+		if r%2 == 0 {
+			// three concurrent updates of different fields
+			s2, u2, g2 := "s2", 2, 2
+			props := []auth.MutableProps{{Secret: &s2}, {UserID: &u2}, {GroupID: &g2}}
+			errs := make([]error, 3)
+			var wg sync.WaitGroup
+			for i := range props {
+				wg.Add(1)
+				go func(i int) { defer wg.Done(); errs[i] = cache.UpdateUserAccount(acc, props[i]) }(i)
+			}
+			wg.Wait()
+			fresh, _ := auth.NewInternal(root, dir)
+			a, gerr := fresh.GetUserAccount(acc)
+			if gerr != nil {
+				c.Violation(core.FP("C17", "mutation-lost", "account-vanished-after-concurrent-updates"), fmt.Sprintf("%s: %v", acc, gerr), nil)
+				continue
+			}
+			vals := []string{map[bool]string{true: "new", false: "old"}[a.Secret == "s2"], map[bool]string{true: "new", false: "old"}[a.UserID == 2], map[bool]string{true: "new", false: "old"}[a.GroupID == 2]}
+			for i, f := range []string{"secret", "uid", "gid"} {
+				m := mutOp("u", "upd", "new", errs[i])
+				m.Inv, m.Ret = 1, 2
+				out = append(out, linLine{Init: "old", Mode: "acct", Scenario: "free-running-concurrent-updates", Config: "field " + f,
+					H: []linOp{m, rd("final", 3, vals[i])}})
+			}
+		} else {
+			// update racing delete
+			s2 := "s2"
+			var e1, e2 error
+			var wg sync.WaitGroup
+			wg.Add(2)
+			go func() { defer wg.Done(); e1 = cache.UpdateUserAccount(acc, auth.MutableProps{Secret: &s2}) }()
+			go func() { defer wg.Done(); e2 = cache.DeleteUserAccount(acc) }()
+			wg.Wait()
+			fresh, _ := auth.NewInternal(root, dir)
+			a, gerr := fresh.GetUserAccount(acc)
+			u := mutOp("u", "upd", "a2", e1)
+			d := mutOp("d", "del", "none", e2)
+			u.Inv, u.Ret, d.Inv, d.Ret = 1, 3, 2, 4 // overlapping
+			f := iamReadOp("final", a, gerr)
+			f.Meta, f.Etag = "none", "none"
+			f.Inv, f.Ret = 5, 6
+			out = append(out, linLine{Init: "a1", Mode: "acct", Scenario: "free-running-update-delete", H: []linOp{u, d, f}})
+		}
+		c.Eval(fmt.Sprintf("stress-%d", r))
+	}
+	if _, err := svc.ListUserAccounts(); err != nil {
+		c.Violation(core.FP("C17", "store-corrupt", "after-concurrent-mutations"), err.Error(), nil)
+	}
+	return out
 }
 
 // c17HTTP checks the same rules end to end: admin API + signed S3 requests.
@@ -573,6 +663,52 @@ func c17HTTP(c *core.Ctx) []linLine {
 		l.H = []linOp{lookup, mutation, read(id, 10)}
 		out = append(out, l)
 		c.Eval("http-gated-" + id)
+	}
+	// accounts that enter the cache through the lookup path (after a restart) keep working
+	// whatever other requests are served in between
+	{
+		u1, u2 := iamAccess+"r1", iamAccess+"r2"
+		// (different secrets: being served another account's entry must show)
+		CreateUser(root, u1, iamS1, "userplus", iamUID, iamGID)
+		CreateUser(root, u2, iamS2, "userplus", iamUID, iamGID)
+		if err := env.Restart(); err != nil {
+			c.Inconclusive("restart: %v", err)
+			return out
+		}
+		root = env.Root
+		for _, u := range []string{u1, u2} {
+			_ = u
+		}
+		l1 := linLine{Init: "a1", Scenario: "http-after-restart-alternating-users", Config: "user 1", Mode: "acct"}
+		l2 := linLine{Init: "a1", Scenario: "http-after-restart-alternating-users", Config: "user 2", Mode: "acct"}
+		t := int64(1)
+		for i := 0; i < c.Pick(30, 200); i++ {
+			for j, u := range []string{u1, u2} {
+				p := probe(u, []string{iamS1, iamS2}[j], "")
+				if p.Res == "ok" {
+					p.Body = "a1"
+				}
+				p.ID, p.Inv, p.Ret = fmt.Sprintf("r%d", t), t, t+1
+				if p.Res == "rejected" {
+					p.Res = "absent"
+				}
+				t += 2
+				if j == 0 {
+					l1.H = append(l1.H, p)
+				} else {
+					l2.H = append(l2.H, p)
+				}
+			}
+		}
+		nbad := 0
+		for _, o := range append(append([]linOp{}, l1.H...), l2.H...) {
+			if o.Res != "ok" {
+				nbad++
+			}
+		}
+		c.Logf("after-restart alternating users: %d probes, %d not accepted", len(l1.H)+len(l2.H), nbad)
+		out = append(out, l1, l2)
+		c.Eval("http-after-restart")
 	}
 	// concurrent admin mutations on distinct accounts: none is lost, the store parses
 	var wg sync.WaitGroup
